@@ -1,4 +1,5 @@
 import Mqtt5V.Proofs.TraceQuota
+import Mqtt5V.Proofs.TraceDisc
 import Mqtt5V.Proofs.Sender
 /-! # C09 — async_disconnect: DISCONNECT first and alone (sender core)
 
@@ -75,6 +76,31 @@ theorem composed_no_success_after_cancel (pre post : List Trace.Ev) (op : Nat) (
 example : Trace.accepts [.init 1 .pub1 1, .connUp none, .wr, .pk (.publish 1 1 7 false 3), .wrOk, .rx ⟨.puback, 7, [0], 0, true⟩, .cancelAll,
     .doneOk 1 [0] 0] = false := by decide
 example : Trace.accepts [.init 1 .pub1 1, .connUp none, .wr, .pk (.publish 1 1 7 false 3), .wrOk, .cancelAll, .doneOther 1, .quiescent, .restart] = true := by decide
+
+/-! ### the DISCONNECT rule at write level (`Model/TraceDisc.lean`: the write-level projection of every H-client transcript must be accepted) -/
+
+/-- **C09 end to end**: in every accepted history a DISCONNECT is the first packet of its write … -/
+theorem composed_disconnect_first_in_write (pre mid post : List TraceDisc.Ev)
+    (hacc : TraceDisc.accepts (pre ++ TraceDisc.Ev.wr :: mid ++ TraceDisc.Ev.pkDisc :: post) = true)
+    (hmid : ∀ e ∈ mid, e = TraceDisc.Ev.pkOther ∨ e = TraceDisc.Ev.pkDisc) : mid = [] :=
+  Mqtt5V.Proofs.TraceDisc.disconnect_first_in_write hacc hmid
+
+/-- … and the last one: a DISCONNECT leaves on its own -/
+theorem composed_nothing_after_disconnect_in_write (pre post : List TraceDisc.Ev) (e : TraceDisc.Ev)
+    (hacc : TraceDisc.accepts (pre ++ TraceDisc.Ev.pkDisc :: e :: post) = true) : e ≠ TraceDisc.Ev.pkOther ∧ e ≠ TraceDisc.Ev.pkDisc :=
+  Mqtt5V.Proofs.TraceDisc.nothing_after_disconnect_in_write hacc
+
+/-- **C09 end to end**: after a write that carried a DISCONNECT has completed successfully on a live connection, nothing more is written on
+that connection: the next write-level event cannot be the start of a write (`connectedOf` is computed from the events alone) -/
+theorem composed_silence_after_disconnect (pre post : List TraceDisc.Ev)
+    (hacc : TraceDisc.accepts (pre ++ TraceDisc.Ev.pkDisc :: TraceDisc.Ev.wrOk :: TraceDisc.Ev.wr :: post) = true) :
+    TraceDisc.connectedOf pre = false :=
+  Mqtt5V.Proofs.TraceDisc.silence_after_disconnect hacc
+
+example : TraceDisc.accepts [.connUp, .wr, .pkOther, .pkOther, .wrOk, .wr, .pkDisc, .wrOk, .connDown, .wr, .pkOther] = true := by decide
+example : TraceDisc.accepts [.connUp, .wr, .pkOther, .pkDisc] = false := by decide
+example : TraceDisc.accepts [.connUp, .wr, .pkDisc, .pkOther] = false := by decide
+example : TraceDisc.accepts [.connUp, .wr, .pkDisc, .wrOk, .wr] = false := by decide
 
 end ComposedModel
 
